@@ -18,7 +18,13 @@
     pushed, [calls], are the model's: their control view ([ctl_calls]: method, device, argument - AttachTo, SetState,
     SetLogo, SetFont in order) equals the control events the model added ([ctl_events]), and the output sink the model
     ends with is the terminal of the last kfmt.SetOutputSink call, if any ([sink_after]).  What SetOutputSink itself
-    does (drain the early buffer into the terminal) and the Writes are the model's (and C16_bringup's) business. *)
+    does (drain the early buffer into the terminal) and the Writes are the model's (and C16_bringup's) business.
+    (Audit note, side conditions: the step theorems speak only about the case "the model's step returns Ok" - the model's
+    link fails only if the drain of the early ring buffer does; what the translation does when the model panics is stated
+    for the nil terminal only (C16_link_nil_tty_panics).  [calls] is determined by the first conjunct (it is the prefix
+    the translation pushed); the control view drops the ARGUMENT of SetLogo / SetFont (which logo / font: not modelled).
+    C16_less_is_translation: the list is shorter than 2^63, i and j are inside it and both DetectOrder values are int8
+    values (-128..127).) *)
 From Coq Require Import NArith ZArith String List.
 From FF Require Import Lib.Word Lib.GoOps Lib.GoOpsHal Gen.Consts_device_tty Gen.Trans_hal.
 From FF Require Import Kfmt.Fmt Hal.Model Hal.HalTrans.
